@@ -232,19 +232,28 @@ def gen_keys_case(rng):
                 rec["attrs"].insert(0, ["Note", ["only%d" % i]])
             while rec["attrs"][0][1] == []:
                 rec["attrs"].append(rec["attrs"].pop(0))
+    clean = all(r["featuretype"] not in ("gene", "transcript") for r in recs)
+    infer = clean and rng.random() < 0.4
     for i, rec in enumerate(recs):
         ft = rec["featuretype"]
         have = {k for k, _ in rec["attrs"]}
         add = []
-        # the values under the custom keys differ from those under gene_id / transcript_id
-        if gkey not in have and rng.random() < 0.75:
-            add.append([gkey, ["cg%d" % (i if ft == "gene" else i % 2)]])
-        if tkey not in have and ft != "gene" and rng.random() < 0.75:
-            add.append([tkey, ["ct%d" % (i if ft == "transcript" else i % 3)]])
+        # the values under the custom keys differ from those under gene_id / transcript_id; on the other lines they name
+        # the same grouping (one gene per transcript), so that inference, when on, sees a proper gene model
+        cur = dict((k, v[0]) for k, v in rec["attrs"] if v)
+        if ft in ("gene", "transcript"):
+            if gkey not in have and rng.random() < 0.75:
+                add.append([gkey, ["cg%d" % i]])
+            if tkey not in have and ft == "transcript" and rng.random() < 0.75:
+                add.append([tkey, ["ct%d" % i]])
+        elif infer or rng.random() < 0.8:
+            # both ids (always when inference is on: every line of the C03 premise carries both) or none
+            if gkey not in have:
+                add.append([gkey, ["c" + cur["gene_id"]]])
+            if tkey not in have:
+                add.append([tkey, ["c" + cur["transcript_id"]]])
         for a in add:
             rec["attrs"].insert(rng.randrange(0, len(rec["attrs"]) + 1), a)
-    clean = all(r["featuretype"] not in ("gene", "transcript") for r in recs)
-    infer = clean and rng.random() < 0.4
     path = "create+update" if (n >= 2 and not infer and rng.random() < 0.25) else "create"
     if path == "create":
         batches = [recs]
